@@ -339,6 +339,31 @@ CHECKS["C17"] = dict(
               "NNPS",
     design="2/C17")
 
+CHECKS["C07"] = dict(
+    level="other",
+    text="The Cython sources of DomainManagerBase / CPUDomainManager "
+         "(constructor, update, _box_wrap_periodic, _create_ghosts_periodic, "
+         "_create_ghosts_mirror, _compute_cell_size_for_binning, "
+         "_remove_ghosts, array helpers) are lowered to Python and executed "
+         "on record arrays with exact-real positions, velocities, smoothing "
+         "lengths and a symbolic box (dims 1-2, periodic / mirror per axis, "
+         "n_layers 1-2, 1-2 arrays, n<=2 particles; more in the thorough "
+         "tier). The path explorer enumerates every layer-membership "
+         "pattern; per path z3 decides that real particles are wrapped by "
+         "whole periods into the box and otherwise untouched, that the ghost "
+         "multiset equals the documented images (faces and corners; mirror: "
+         "reflected coordinate and negated normal velocity; all values "
+         "copied, tag Ghost), and that a second update leaves the same "
+         "particles.",
+    note="Cython->Python lowering and cyarray/ParticleArray models trusted; "
+         "max h = 0.5; particles less than one period outside; box wider "
+         "than two layers (one narrow-box configuration); dim 3, GPU, "
+         "in_parallel and copied-property subsets outside",
+    technique="symbolic execution of Cython source lowered to Python on z3 "
+              "proxies, per-path SMT queries against the documented image "
+              "set, replay on the compiled domain manager",
+    design="2/C07")
+
 NOT_APPLICABLE = {
     "C05": "whole-application runs of compiled OpenMP code compared across "
            "configurations up to summation order: no unit a solver can "
